@@ -36,6 +36,16 @@ def bigToCompact (n : Int) : Nat :=
   let c := ((e' * 2 ^ 24) % 2 ^ 32) ||| mant
   if n < 0 then c ||| 2 ^ 23 else c
 
+/-- The compact values `BigToCompact` can produce for a non-negative target
+    (`uint32` range): zero, or sign bit clear, exponent ≥ 1, mantissa ≥ 0x008000
+    (otherwise a shorter exponent would have been chosen), and for exponents
+    1 and 2 the mantissa bytes that `CompactToBig` shifts out are zero. -/
+def Canonical (c : Nat) : Prop :=
+  c = 0 ∨ (c < 2 ^ 32 ∧ (c / 2 ^ 23) % 2 = 0 ∧ 1 ≤ c / 2 ^ 24 ∧ 2 ^ 15 ≤ c % 2 ^ 23 ∧
+    (c / 2 ^ 24 = 1 → c % 2 ^ 16 = 0) ∧ (c / 2 ^ 24 = 2 → c % 2 ^ 8 = 0))
+
+instance (c : Nat) : Decidable (Canonical c) := by unfold Canonical; infer_instance
+
 /-- `CheckProofOfWork` verdict: target from bits, limit, and the parent-chain hash as a number. -/
 inductive PowErr | badTarget | highTarget | highHash
   deriving DecidableEq, Repr
